@@ -47,6 +47,18 @@
 //!    embedded or supplied, overclaim policies, one or two signers; after
 //!    `Validation::new_at` every order of `supply_tal` / `supply_ca` calls with
 //!    `finalize` at every point;
+//!  * bound1.segmented_strings — the segmentation dimension: every primitive
+//!    string-typed node (length L) re-spelled as a BER constructed string whose
+//!    pieces total L-1, L, L+1, L+L/2 or 2L: all two-piece splits at every
+//!    position, a three-piece menu, one level of nested pieces, indefinite
+//!    outer length; into the relaxed entry points (thorough: all);
+//!  * environment.logging / environment.logging.resigned — what an earlier
+//!    call may have left switched on: every other space runs with the `log`
+//!    crate's process-global level at Off; here the worker raises it to Trace
+//!    with a logger that formats every record, and runs every seed as it is,
+//!    the complete bound-1 list of one seed per type and of every text seed,
+//!    a reduced bound-1 list of all others, and the reduced menu on the
+//!    to-be-signed parts (re-signed);
 //!  * accessor.sequences — every sequence of up to three (thorough: four)
 //!    calls over the methods of a decoded Crl / Manifest / Roa / Aspa / Cert /
 //!    Tal / Rta / block list, and every interleaving of two live iterators.
@@ -739,6 +751,15 @@ fn build_env(thorough: bool) -> Env {
             let provs: Vec<u128> = (0..n as u128).map(|i| 100_000 + 2 * i).collect();
             let econtent = der::aspa_content(Some(1), 64496, &provs);
             push(format!("count/{n:05}-providers.asa"), Kind::Aspa, e5_signed_object(&signer, der::OID_CT_ASPA, &econtent, &fx.ee_as_der, 2, vec![], true));
+        }
+        // TALs with 0..=3, 40 and 257 URIs (the reader accepts an empty URI section)
+        for n in [0usize, 1, 2, 3, 40, 257] {
+            let mut t: Vec<u8> = Vec::new();
+            for j in 0..n { t.extend_from_slice(format!("{}://example.net/repo/ta-{j}.cer\n", if j % 2 == 0 { "rsync" } else { "https" }).as_bytes()) }
+            t.push(b'\n');
+            let b64 = base64::engine::general_purpose::STANDARD.encode(&signer.key(0).spki_der);
+            for c in b64.as_bytes().chunks(64) { t.extend_from_slice(c); t.push(b'\n') }
+            push(format!("count/{n:05}-uris.tal"), Kind::Tal, t);
         }
     }
 
@@ -1792,19 +1813,19 @@ fn run_case(env: &Env, ep: Ep, bytes: &[u8], do_sweep: bool) -> CaseOut {
 //============ case enumeration (pure functions of seed and index) ==================
 
 #[derive(Clone, Copy, Debug, PartialEq, Eq, Hash, PartialOrd, Ord)]
-enum SpaceId { B0, B1, B2P, B2L, Str, Rs, SelfTest, Own, Scale, Time, RtaMx, Seq }
+enum SpaceId { B0, B1, B2P, B2L, Str, Rs, SelfTest, Own, Scale, Time, RtaMx, Seq, Seg, Log, LogRs }
 
 impl SpaceId {
     fn code(self) -> &'static str {
-        match self { SpaceId::B0 => "b0", SpaceId::B1 => "b1", SpaceId::B2P => "b2p", SpaceId::B2L => "b2l", SpaceId::Str => "str", SpaceId::Rs => "rs", SpaceId::SelfTest => "self", SpaceId::Own => "own", SpaceId::Scale => "sc", SpaceId::Time => "time", SpaceId::RtaMx => "rtamx", SpaceId::Seq => "seq" }
+        match self { SpaceId::B0 => "b0", SpaceId::B1 => "b1", SpaceId::B2P => "b2p", SpaceId::B2L => "b2l", SpaceId::Str => "str", SpaceId::Rs => "rs", SpaceId::SelfTest => "self", SpaceId::Own => "own", SpaceId::Scale => "sc", SpaceId::Time => "time", SpaceId::RtaMx => "rtamx", SpaceId::Seq => "seq", SpaceId::Seg => "seg", SpaceId::Log => "log", SpaceId::LogRs => "logrs" }
     }
     fn parse(s: &str) -> Option<SpaceId> {
-        [SpaceId::B0, SpaceId::B1, SpaceId::B2P, SpaceId::B2L, SpaceId::Str, SpaceId::Rs, SpaceId::SelfTest, SpaceId::Own, SpaceId::Scale, SpaceId::Time, SpaceId::RtaMx, SpaceId::Seq].into_iter().find(|x| x.code() == s)
+        [SpaceId::B0, SpaceId::B1, SpaceId::B2P, SpaceId::B2L, SpaceId::Str, SpaceId::Rs, SpaceId::SelfTest, SpaceId::Own, SpaceId::Scale, SpaceId::Time, SpaceId::RtaMx, SpaceId::Seq, SpaceId::Seg, SpaceId::Log, SpaceId::LogRs].into_iter().find(|x| x.code() == s)
     }
 }
 
 #[derive(Clone, Copy, Debug)]
-enum Case1 { Node(u32, Op), Trunc(u32), Byte(u32, u8), Bit(u32, u8), Tok(mutate::TokOp) }
+enum Case1 { Node(u32, Op), Trunc(u32), Byte(u32, u8), Bit(u32, u8), Tok(mutate::TokOp), Asis }
 
 const TEXT_VALUES: [u8; 8] = [b'\n', b'#', b'\r', b'=', b' ', b',', b'-', b'/'];
 
@@ -1860,6 +1881,7 @@ fn case1_bytes(seed: &Seed, c: Case1) -> Vec<u8> {
         Case1::Byte(p, v) => mutate::set_byte(&seed.bytes, p as usize, v),
         Case1::Bit(p, b) => mutate::flip_bit(&seed.bytes, p as usize, b),
         Case1::Tok(op) => { let (delim, menu) = text_menu(seed.kind).unwrap(); mutate::token_apply(&mutate::split_tokens(&seed.bytes, delim), delim, op, menu) }
+        Case1::Asis => seed.bytes.clone(),
     }
 }
 
@@ -1878,6 +1900,7 @@ fn case1_desc(seed: &Seed, c: Case1) -> String {
         Case1::Byte(p, v) => format!("byte[{p}]={v:02x}"),
         Case1::Bit(p, b) => format!("bit[{p}].{b}"),
         Case1::Tok(op) => mutate::tok_name(op, text_menu(seed.kind).unwrap().1),
+        Case1::Asis => "seed".into(),
     }
 }
 
@@ -1905,6 +1928,221 @@ fn fnv64(b: &[u8]) -> u64 {
     let mut h = 0xcbf29ce484222325u64;
     for x in b { h ^= *x as u64; h = h.wrapping_mul(0x100000001b3); }
     h
+}
+
+//============ segmentation: a string value arriving in pieces ==========================
+
+/// How the pieces of a constructed (BER) string are laid out. Cut positions are offsets into the
+/// (repeated / cut) content of `total` octets.
+#[derive(Clone, Copy, Debug, PartialEq, Eq)]
+enum SegShape {
+    /// two pieces, cut at p (definite outer length)
+    Two(u32),
+    /// the same under an indefinite outer length
+    TwoIndef(u32),
+    /// three pieces, cut at p <= q
+    Three(u32, u32),
+    /// two pieces cut at p, the first one itself constructed of two halves
+    NestFirst(u32),
+    /// two pieces cut at p, the second one itself constructed of two halves
+    NestSecond(u32),
+}
+
+#[derive(Clone, Copy, Debug)]
+struct SegCase { node: u32, total: u32, shape: SegShape }
+
+/// Length of the value proper of a string node (a BIT STRING without its unused-bits octet).
+fn seg_len(tag: u8, content_len: usize) -> usize { if tag == 0x03 && content_len > 0 { content_len - 1 } else { content_len } }
+
+/// The totals the pieces add up to, for a value of l octets: one short, exact, one more, half as much again, twice.
+fn seg_totals(l: usize) -> Vec<usize> {
+    let all = [l.saturating_sub(1), l, l + 1, l + l / 2, 2 * l];
+    let n = if l > 2048 { 3 } else { 5 };
+    let mut v: Vec<usize> = Vec::new();
+    for &t in &all[..n] { if !v.contains(&t) { v.push(t) } }
+    v
+}
+
+/// Cut positions of the two-piece splits: every position up to a total of 80 octets (any key identifier,
+/// hash, time, serial and most names and URIs twice over); beyond that the 17 positions at either end,
+/// around the original length, the middle, and the length-form / CER segment boundaries.
+fn seg_positions(l: usize, t: usize) -> Vec<usize> {
+    if t <= 80 { return (0..=t).collect() }
+    let mut v: Vec<usize> = (0..=16).chain(t - 16..=t).collect();
+    for c in [l, t / 2, 127, 128, 255, 256, 1000, 65535, 65536] { for x in [c.saturating_sub(1), c, c + 1] { if x <= t { v.push(x) } } }
+    v.sort_unstable(); v.dedup();
+    v
+}
+/// The reduced cut menu (nested and indefinite-length spellings).
+fn seg_positions_few(l: usize, t: usize) -> Vec<usize> {
+    let mut v: Vec<usize> = Vec::new();
+    for x in [1, l / 2, l.saturating_sub(1), l, l + 1, t.saturating_sub(1)] { if x <= t && !v.contains(&x) { v.push(x) } }
+    v
+}
+/// The three-piece menu: empty pieces at either end and in the middle, one-octet pieces, thirds, and the
+/// second cut before / at / behind the original length with the first one in the middle, just before it or at it.
+fn seg_cut_pairs(l: usize, t: usize) -> Vec<(usize, usize)> {
+    let (h, m) = (l / 2, l.saturating_sub(1));
+    let cand = [(0, h), (h, h), (h, t), (1, 2), (t / 3, 2 * t / 3), (h, m), (h, l), (h, l + 1), (m, l), (m, l + 1), (l, l + 1), (l, l), (1, t.saturating_sub(1)), (l, t.saturating_sub(1))];
+    let mut v: Vec<(usize, usize)> = Vec::new();
+    for (p, q) in cand { if p <= q && q <= t && !v.contains(&(p, q)) { v.push((p, q)) } }
+    v
+}
+
+/// All segmentation cases of a seed, in a fixed order: every primitive string-typed node x every total x
+/// (all two-piece splits, the three-piece menu, nested and indefinite-length spellings at the reduced cut menu).
+fn seg_cases(seed: &Seed) -> Vec<SegCase> {
+    let mut v = Vec::new();
+    let Some(t) = &seed.tree else { return v };
+    for (i, n) in t.nodes.iter().enumerate() {
+        if !mutate::is_string_tag(n.tag) { continue }
+        let l = seg_len(n.tag, n.len);
+        for total in seg_totals(l) {
+            let mut push = |shape: SegShape| v.push(SegCase { node: i as u32, total: total as u32, shape });
+            for p in seg_positions(l, total) { push(SegShape::Two(p as u32)) }
+            for (p, q) in seg_cut_pairs(l, total) { push(SegShape::Three(p as u32, q as u32)) }
+            for p in seg_positions_few(l, total) { push(SegShape::NestFirst(p as u32)); push(SegShape::NestSecond(p as u32)); push(SegShape::TwoIndef(p as u32)) }
+        }
+    }
+    v
+}
+
+/// The lengths of the pieces, as they appear in a witness: `10+11`, `(5+5)+11`.
+fn seg_pieces_str(total: usize, shape: SegShape) -> String {
+    match shape {
+        SegShape::Two(p) | SegShape::TwoIndef(p) => format!("{}+{}", p, total - p as usize),
+        SegShape::Three(p, q) => format!("{}+{}+{}", p, q - p, total - q as usize),
+        SegShape::NestFirst(p) => { let h = p / 2; format!("({}+{})+{}", h, p - h, total - p as usize) }
+        SegShape::NestSecond(p) => { let r = total - p as usize; format!("{}+({}+{})", p, r / 2, r - r / 2) }
+    }
+}
+
+/// The constructed spelling: the value's own octets, repeated or cut to `total`, in the pieces of `shape`.
+/// The parts of a BIT STRING are BIT STRINGs (the last one carries the unused-bits count), all others OCTET STRINGs.
+fn seg_tlv(tag: u8, content: &[u8], total: usize, shape: SegShape) -> Vec<u8> {
+    let bits = tag == 0x03 && !content.is_empty();
+    let (ptag, unused, data) = if bits { (0x03u8, content[0], &content[1..]) } else { (0x04u8, 0u8, content) };
+    let ext: Vec<u8> = if data.is_empty() { vec![0x5a; total] } else { data.iter().copied().cycle().take(total).collect() };
+    let part = |chunk: &[u8], last: bool| -> Vec<u8> {
+        let mut c = Vec::with_capacity(chunk.len() + 1);
+        if bits { c.push(if last { unused } else { 0 }) }
+        c.extend_from_slice(chunk);
+        der::tlv(ptag, &c)
+    };
+    let cons = |parts: &[Vec<u8>]| der::tlv(ptag | 0x20, &parts.concat());
+    let (parts, indef): (Vec<Vec<u8>>, bool) = match shape {
+        SegShape::Two(p) => (vec![part(&ext[..p as usize], false), part(&ext[p as usize..], true)], false),
+        SegShape::TwoIndef(p) => (vec![part(&ext[..p as usize], false), part(&ext[p as usize..], true)], true),
+        SegShape::Three(p, q) => (vec![part(&ext[..p as usize], false), part(&ext[p as usize..q as usize], false), part(&ext[q as usize..], true)], false),
+        SegShape::NestFirst(p) => { let (p, h) = (p as usize, p as usize / 2); (vec![cons(&[part(&ext[..h], false), part(&ext[h..p], false)]), part(&ext[p..], true)], false) }
+        SegShape::NestSecond(p) => { let p = p as usize; let h = p + (total - p) / 2; (vec![part(&ext[..p], false), cons(&[part(&ext[p..h], false), part(&ext[h..], true)])], false) }
+    };
+    let body = parts.concat();
+    let mut out = vec![tag | 0x20];
+    if indef { out.push(0x80); out.extend_from_slice(&body); out.extend_from_slice(&[0, 0]) }
+    else { out.extend(der::len_octets(body.len())); out.extend_from_slice(&body) }
+    out
+}
+
+/// `buf` with node `target` replaced by `new_tlv`; the lengths of all ancestors follow (indefinite ones stay indefinite).
+fn replace_node(t: &Tree, buf: &[u8], target: usize, new_tlv: &[u8]) -> Vec<u8> {
+    fn emit(t: &Tree, buf: &[u8], i: usize, target: usize, new_tlv: &[u8], out: &mut Vec<u8>) {
+        let n = &t.nodes[i];
+        if i == target { out.extend_from_slice(new_tlv); return }
+        if !(target > i && target < i + n.size) { out.extend_from_slice(&buf[n.start..n.end()]); return }
+        let mut content = Vec::with_capacity(n.len + new_tlv.len());
+        for &c in &n.children { emit(t, buf, c, target, new_tlv, &mut content) }
+        out.push(n.tag);
+        if n.indef { out.push(0x80); out.extend_from_slice(&content); out.extend_from_slice(&[0, 0]) }
+        else { out.extend(der::len_octets(content.len())); out.extend_from_slice(&content) }
+    }
+    let mut out = Vec::with_capacity(buf.len() + new_tlv.len());
+    emit(t, buf, 0, target, new_tlv, &mut out);
+    out
+}
+
+fn seg_bytes(seed: &Seed, c: SegCase) -> Vec<u8> {
+    let t = seed.tree.as_ref().unwrap();
+    let n = &t.nodes[c.node as usize];
+    let tlv = seg_tlv(n.tag, &seed.der[n.start + n.hdr..n.content_end()], c.total as usize, c.shape);
+    seed.wrap(replace_node(t, &seed.der, c.node as usize, &tlv))
+}
+
+fn seg_desc(seed: &Seed, c: SegCase) -> String {
+    let n = &seed.tree.as_ref().unwrap().nodes[c.node as usize];
+    format!("node={}:tag={:02x};len={};constructed;total={};pieces={}{}", n.path_str(), n.tag, seg_len(n.tag, n.len), c.total, seg_pieces_str(c.total as usize, c.shape),
+        if matches!(c.shape, SegShape::TwoIndef(_)) { ";outer=indefinite" } else { "" })
+}
+
+/// Entry points of the segmentation space: the relaxed (BER) ones, where a constructed string gets past bcder
+/// (quick: one per type; thorough: every entry point of the type — strict and DER decoding must refuse them all).
+fn seg_eps(kind: Kind, thorough: bool) -> &'static [Ep] {
+    if thorough { return match kind { Kind::AsText | Kind::IpText => &[], k => eps_for(k) } }
+    match kind {
+        Kind::Mft => &[Ep::MftR], Kind::Roa => &[Ep::RoaR], Kind::Aspa => &[Ep::AspaR], Kind::Rta => &[Ep::RtaR], Kind::Sig => &[Ep::SigR],
+        _ => &[],
+    }
+}
+fn seg_seed(s: &Seed, thorough: bool) -> bool {
+    !s.own_space && !s.no_mutate && s.tree.is_some() && (thorough || s.bytes.len() <= FULL_BYTES_BELOW) && !seg_eps(s.kind, thorough).is_empty()
+}
+
+//============ the environment: what an earlier call left switched on ====================
+
+/// The `log` crate's maximum level is process-global state that any earlier call of the application may have
+/// raised; from then on the arguments of the library's `debug!` / `trace!` statements are evaluated. This logger
+/// is enabled at every level and formats every record (into nothing), so that whatever an argument indexes,
+/// unwraps or formats runs inside the case that triggered the record, under that case's panic guard.
+struct SinkLogger;
+static LOG_RECORDS: std::sync::atomic::AtomicU64 = std::sync::atomic::AtomicU64::new(0);
+impl log::Log for SinkLogger {
+    fn enabled(&self, _: &log::Metadata) -> bool { true }
+    fn log(&self, record: &log::Record) {
+        use std::fmt::Write as _;
+        struct Sink(u64);
+        impl std::fmt::Write for Sink { fn write_str(&mut self, s: &str) -> std::fmt::Result { self.0 += s.len() as u64; Ok(()) } }
+        let mut s = Sink(0);
+        let _ = write!(s, "[{} {}] {}", record.level(), record.target(), record.args());
+        std::hint::black_box(s.0);
+        LOG_RECORDS.fetch_add(1, std::sync::atomic::Ordering::Relaxed);
+    }
+    fn flush(&self) {}
+}
+static SINK_LOGGER: SinkLogger = SinkLogger;
+fn log_records() -> u64 { LOG_RECORDS.load(std::sync::atomic::Ordering::Relaxed) }
+
+/// Seeds whose complete bound-1 list is run again with logging switched on: every text-format seed and,
+/// per type, the freshly built seed with the fewest TLV nodes (any seed of the type if none is fresh);
+/// thorough: every seed. All other seeds get the reduced list.
+fn log_full_seeds(env: &Env, thorough: bool) -> Vec<bool> {
+    let mut full = vec![false; env.seeds.len()];
+    let mut best: BTreeMap<Kind, usize> = BTreeMap::new();
+    for (i, s) in env.seeds.iter().enumerate() {
+        if s.own_space || s.no_mutate { continue }
+        if thorough || text_menu(s.kind).is_some() { full[i] = true; continue }
+        let Some(t) = &s.tree else { continue };
+        if !s.fresh && env.seeds.iter().any(|o| o.kind == s.kind && o.fresh && o.tree.is_some() && !o.no_mutate && !o.own_space) { continue }
+        let better = match best.get(&s.kind) { None => true, Some(&j) => t.len() < env.seeds[j].tree.as_ref().unwrap().len() };
+        if better { best.insert(s.kind, i); }
+    }
+    for &i in best.values() { full[i] = true }
+    full
+}
+
+/// The cases of a seed that are run with logging switched on: the seed as it is; then either its complete
+/// bound-1 list (quick-tier menu) or the reduced one: at every TLV node one representative per operator class
+/// (`Tree::reduced_menu`) and the truncation in front of it.
+fn log_cases(seed: &Seed, full: bool) -> Vec<Case1> {
+    let mut v = vec![Case1::Asis];
+    if seed.own_space || seed.no_mutate { return v }
+    if full { v.extend(b1_cases(seed, false)); return v }
+    if let Some(t) = &seed.tree {
+        for i in 0..t.len() {
+            for op in t.reduced_menu(i) { v.push(Case1::Node(i as u32, op)) }
+            if seed.tal_prefix.is_none() && i > 0 { v.push(Case1::Trunc(t.nodes[i].start as u32)) }
+        }
+    }
+    v
 }
 
 //============ the time clause: growth of CPU time with the size of crafted objects ==
@@ -3468,6 +3706,10 @@ struct Worker {
     mx_fx: MxFx,
     mx_cfgs: Option<Arc<Vec<(MxCfg, usize)>>>,
     tm_controls: HashMap<String, Vec<(TmOps, bool)>>,
+    seg: HashMap<usize, Arc<Vec<SegCase>>>,
+    log: HashMap<usize, Arc<Vec<Case1>>>,
+    log_full: Option<Vec<bool>>,
+    log_rs: HashMap<usize, Arc<Vec<(u32, Op)>>>,
 }
 
 fn witness(ep: Ep, f: &Fail, seed: &str, sp: SpaceId, idx: &str, desc: &str) -> String {
@@ -3514,7 +3756,26 @@ impl Worker {
         }).clone()
     }
 
+    fn log_list(&mut self, seed: usize) -> Arc<Vec<Case1>> {
+        let th = self.thorough;
+        let env = &self.env;
+        let full = self.log_full.get_or_insert_with(|| log_full_seeds(env, th))[seed];
+        self.log.entry(seed).or_insert_with(|| Arc::new(log_cases(&env.seeds[seed], full))).clone()
+    }
+
+    /// Runs a task with the process-wide log level its space asks for: `Off` (what a process that never touched
+    /// logging has) everywhere but in the logging spaces, which run at `Trace`.
     fn run_task(&mut self, t: &Task) -> TaskResult {
+        let logging = matches!(t.sp, SpaceId::Log | SpaceId::LogRs);
+        log::set_max_level(if logging { log::LevelFilter::Trace } else { log::LevelFilter::Off });
+        let before = log_records();
+        let mut res = self.run_task_at_level(t);
+        log::set_max_level(log::LevelFilter::Off);
+        if logging { *res.notes.entry("log records formatted".into()).or_insert(0) += log_records() - before }
+        res
+    }
+
+    fn run_task_at_level(&mut self, t: &Task) -> TaskResult {
         let mut res = TaskResult::default();
         match t.sp {
             SpaceId::B0 | SpaceId::Own | SpaceId::Scale => {
@@ -3525,8 +3786,8 @@ impl Worker {
                     t.ep.name(), if out.decoded { "decoded".to_string() } else { format!("rejected: {}", out.reject) }));
                 self.record(&mut res, t.ep, &s.bytes, out, &s.name, t.sp, "0", &|| "seed".to_string());
             }
-            SpaceId::B1 => {
-                let list = self.b1_list(t.seed);
+            SpaceId::B1 | SpaceId::Log => {
+                let list = if t.sp == SpaceId::Log { self.log_list(t.seed) } else { self.b1_list(t.seed) };
                 let s = &self.env.seeds[t.seed];
                 for idx in t.lo..t.hi.min(list.len() as u64) {
                     let c = list[idx as usize];
@@ -3568,9 +3829,23 @@ impl Worker {
                     self.record(&mut res, t.ep, &buf, out, "-", t.sp, &idx.to_string(), &|| format!("bytes={}", hex(&b)));
                 }
             }
-            SpaceId::Rs => {
+            SpaceId::Seg => {
                 let env = &self.env;
-                let list = self.rs.entry(t.seed).or_insert_with(|| Arc::new(singles_full(&env.rs[t.seed].tree))).clone();
+                let list = self.seg.entry(t.seed).or_insert_with(|| Arc::new(seg_cases(&env.seeds[t.seed]))).clone();
+                let s = &self.env.seeds[t.seed];
+                for idx in t.lo..t.hi.min(list.len() as u64) {
+                    let c = list[idx as usize];
+                    let bytes = seg_bytes(s, c);
+                    let out = run_case(&self.env, t.ep, &bytes, true);
+                    if out.decoded && res.samples.is_empty() { res.samples.push(format!("({}, {}, {}) decodes", s.name, seg_desc(s, c), t.ep.name())) }
+                    self.record(&mut res, t.ep, &bytes, out, &s.name, t.sp, &idx.to_string(), &|| seg_desc(s, c));
+                }
+            }
+            SpaceId::Rs | SpaceId::LogRs => {
+                let env = &self.env;
+                let th = self.thorough;
+                let list = if t.sp == SpaceId::LogRs { self.log_rs.entry(t.seed).or_insert_with(|| Arc::new(if th { singles_full(&env.rs[t.seed].tree) } else { singles_reduced(&env.rs[t.seed].tree) })).clone() }
+                    else { self.rs.entry(t.seed).or_insert_with(|| Arc::new(singles_full(&env.rs[t.seed].tree))).clone() };
                 let rs = &self.env.rs[t.seed];
                 for idx in t.lo..t.hi.min(list.len() as u64) {
                     let (n, op) = list[idx as usize];
@@ -3679,7 +3954,23 @@ fn worker_main(thorough: bool) -> ! {
         Ok(e) => e,
         Err(p) => { println!("{}", json!({"fatal": format!("worker could not build its environment: {p}")})); std::process::exit(3) }
     };
-    let mut w = Worker { env, thorough, b1: HashMap::new(), b2p: HashMap::new(), b2l: HashMap::new(), rs: HashMap::new(), mx_fx: MxFx::default(), mx_cfgs: None, tm_controls: HashMap::new() };
+    let mut w = Worker { env, thorough, b1: HashMap::new(), b2p: HashMap::new(), b2l: HashMap::new(), rs: HashMap::new(), mx_fx: MxFx::default(), mx_cfgs: None, tm_controls: HashMap::new(),
+        seg: HashMap::new(), log: HashMap::new(), log_full: None, log_rs: HashMap::new() };
+    // the logger of the logging spaces; it must be seen to receive a record once the level is raised, and none while it is off
+    {
+        let installed = log::set_logger(&SINK_LOGGER).is_ok();
+        log::set_max_level(log::LevelFilter::Off);
+        log::debug!("c04 worker: logging is off, this must not be formatted");
+        let off = log_records();
+        log::set_max_level(log::LevelFilter::Trace);
+        log::trace!("c04 worker: logging is on, this must be formatted");
+        let on = log_records();
+        log::set_max_level(log::LevelFilter::Off);
+        if !installed || off != 0 || on != 1 {
+            println!("{}", json!({"fatal": format!("the worker's logger does not follow the log level (installed={installed}, records while off={off}, after one trace record={on})")}));
+            std::process::exit(3);
+        }
+    }
     println!("{}", json!({"ready": true, "seeds": w.env.seeds.len()}));
     let stdin = std::io::stdin();
     let mut line = String::new();
@@ -3973,9 +4264,9 @@ fn describe_case(env: &Env, thorough: bool, t: &Task) -> (String, String, Vec<u8
     let idx = t.lo;
     match t.sp {
         SpaceId::B0 | SpaceId::Own | SpaceId::Scale => { let s = &env.seeds[t.seed]; (s.name.clone(), "seed".into(), s.bytes.clone()) }
-        SpaceId::B1 => {
+        SpaceId::B1 | SpaceId::Log => {
             let s = &env.seeds[t.seed];
-            let list = b1_cases(s, thorough);
+            let list = if t.sp == SpaceId::Log { log_cases(s, log_full_seeds(env, thorough)[t.seed]) } else { b1_cases(s, thorough) };
             match list.get(idx as usize) { Some(&c) => (s.name.clone(), case1_desc(s, c), case1_bytes(s, c)), None => (s.name.clone(), "out of range".into(), vec![]) }
         }
         SpaceId::B2P | SpaceId::B2L => {
@@ -3991,9 +4282,13 @@ fn describe_case(env: &Env, thorough: bool, t: &Task) -> (String, String, Vec<u8
             }
         }
         SpaceId::Str => { let mut b = Vec::new(); mutate::short_string(idx, &mut b); ("-".into(), format!("bytes={}", hex(&b)), b) }
-        SpaceId::Rs => {
+        SpaceId::Seg => {
+            let s = &env.seeds[t.seed];
+            match seg_cases(s).get(idx as usize) { Some(&c) => (s.name.clone(), seg_desc(s, c), seg_bytes(s, c)), None => (s.name.clone(), "out of range".into(), vec![]) }
+        }
+        SpaceId::Rs | SpaceId::LogRs => {
             let rs = &env.rs[t.seed];
-            let list = singles_full(&rs.tree);
+            let list = if t.sp == SpaceId::LogRs && !thorough { singles_reduced(&rs.tree) } else { singles_full(&rs.tree) };
             match list.get(idx as usize) {
                 Some(&(n, op)) => (rs.name.clone(), node_desc(&rs.tree, n, op), rs.assemble(env, &rs.tree.apply1(&rs.inner, n as usize, op), true)),
                 None => (rs.name.clone(), "out of range".into(), vec![]),
@@ -4092,7 +4387,7 @@ fn main() {
             let (mode, epn, seedn) = (token(&wit, "mode=")?, token(&wit, "ep=")?, token(&wit, "seed=")?);
             let ep = *ALL_EPS.iter().find(|e| e.name() == epn && e.mode() == mode)?;
             let seed = match spid {
-                SpaceId::Rs => env.rs.iter().position(|s| s.name == seedn)?,
+                SpaceId::Rs | SpaceId::LogRs => env.rs.iter().position(|s| s.name == seedn)?,
                 SpaceId::Str | SpaceId::Time | SpaceId::RtaMx => 0,
                 SpaceId::SelfTest => return None,
                 _ => env.seeds.iter().position(|s| s.name == seedn)?,
@@ -4152,6 +4447,26 @@ fn main() {
         let chunk = (1536u64).min((16u64 << 20) / s.bytes.len().max(1) as u64).max(16);
         for &ep in eps_for(s.kind) { plan.add_range(SpaceId::B1, i, ep, b1_lists[i].len() as u64, chunk) }
     }
+    // segmentation: every string-typed node in pieces
+    let seg_lists: Vec<Vec<SegCase>> = env.seeds.par_iter().map(|s| if seg_seed(s, thorough) { seg_cases(s) } else { Vec::new() }).collect();
+    for &i in &order {
+        let s = &env.seeds[i];
+        if !seg_seed(s, thorough) { continue }
+        let chunk = (1536u64).min((16u64 << 20) / s.bytes.len().max(1) as u64).max(16);
+        for &ep in seg_eps(s.kind, thorough) { plan.add_range(SpaceId::Seg, i, ep, seg_lists[i].len() as u64, chunk) }
+    }
+    // logging switched on: every seed as it is, the complete bound-1 list of the representative seeds, the reduced one of the others
+    let log_full = log_full_seeds(&env, thorough);
+    let log_lists: Vec<Vec<Case1>> = env.seeds.par_iter().enumerate().map(|(i, s)| log_cases(s, log_full[i])).collect();
+    for &i in &order {
+        let s = &env.seeds[i];
+        let chunk = (1536u64).min((16u64 << 20) / s.bytes.len().max(1) as u64).max(16);
+        for &ep in eps_for(s.kind) { plan.add_range(SpaceId::Log, i, ep, log_lists[i].len() as u64, chunk) }
+    }
+    for (i, rs) in env.rs.iter().enumerate() {
+        let total = if thorough { singles_full(&rs.tree).len() } else { singles_reduced(&rs.tree).len() } as u64;
+        plan.add_range(SpaceId::LogRs, i, rs.eps()[0], total, 96);
+    }
     // bound 0
     for (i, s) in env.seeds.iter().enumerate() { if !s.own_space { for &ep in eps_for(s.kind) { plan.add_range(if s.no_mutate { SpaceId::Scale } else { SpaceId::B0 }, i, ep, 1, 1) } } }
     // bound 2 (thorough): one seed per kind, the one with the fewest TLV nodes
@@ -4184,12 +4499,18 @@ fn main() {
     let nstr = mutate::short_string_count(max_len);
     for &ep in ALL_EPS.iter() { plan.add_range(SpaceId::Str, 0, ep, nstr, ctx.tier.pick(16_384, 524_288)) }
 
+    // debugging aid: C04_ONLY=seg,log runs the named spaces only (the others are then reported empty: exit 2 unless a violation is found)
+    if let Ok(only) = std::env::var("C04_ONLY") {
+        let keep: Vec<&str> = only.split(',').collect();
+        plan.tasks.retain(|t| t.sp == SpaceId::SelfTest || keep.contains(&t.sp.code()));
+    }
     if std::env::var("C04_PLAN").is_ok() {
         let mut by: BTreeMap<&str, (u64, u64)> = BTreeMap::new();
         for t in &plan.tasks { let e = by.entry(t.sp.code()).or_insert((0, 0)); e.0 += 1; e.1 += t.size(); }
         for (k, (n, c)) in by { println!("space {k}: {n} tasks, {c} indexes") }
         for (i, s) in env.seeds.iter().enumerate() {
-            println!("seed {i} {} kind={:?} len={} nodes={} b1={}", s.name, s.kind, s.bytes.len(), s.tree.as_ref().map(|t| t.len()).unwrap_or(0), b1_lists[i].len());
+            println!("seed {i} {} kind={:?} len={} nodes={} b1={} seg={}x{} log={}{}", s.name, s.kind, s.bytes.len(), s.tree.as_ref().map(|t| t.len()).unwrap_or(0), b1_lists[i].len(),
+                seg_lists[i].len(), if seg_seed(s, thorough) { seg_eps(s.kind, thorough).len() } else { 0 }, log_lists[i].len(), if log_full[i] { " (full)" } else { "" });
         }
         for &i in &b2_seeds { let t = env.seeds[i].tree.as_ref().unwrap(); println!("b2 seed {} reduced={} full={}", env.seeds[i].name, singles_reduced(t).len(), singles_full(t).len()); }
         println!("skipped: {:?}", env.skipped);
@@ -4202,6 +4523,20 @@ fn main() {
         seen.insert(fnv64(&s.bytes));
         let mut n = 0u64;
         for &c in &b1_lists[i] { if seen.insert(fnv64(&case1_bytes(s, c))) { n += 1 } }
+        n
+    }).collect();
+
+    let seg_distinct: Vec<u64> = env.seeds.par_iter().enumerate().map(|(i, s)| {
+        let mut seen: HashSet<u64> = HashSet::new();
+        seen.insert(fnv64(&s.bytes));
+        let mut n = 0u64;
+        for &c in &seg_lists[i] { if seen.insert(fnv64(&seg_bytes(s, c))) { n += 1 } }
+        n
+    }).collect();
+    let log_distinct: Vec<u64> = env.seeds.par_iter().enumerate().map(|(i, s)| {
+        let mut seen: HashSet<u64> = HashSet::new();
+        let mut n = 0u64;
+        for &c in &log_lists[i] { if seen.insert(fnv64(&case1_bytes(s, c))) { n += 1 } }
         n
     }).collect();
 
@@ -4294,8 +4629,29 @@ fn main() {
     finish_space(SpaceId::Rs, "bound1.resigned",
         &format!("deviations behind the signature checks: every full-menu operator at every node of a to-be-signed part (TBS of fresh EE/CA/router and identity certificates; TBSCertList and identity EE certificate inside a signed message; ROA/manifest/ASPA eContent), after which the object is signed again with the pool keys (message digest, signed attributes, CRL and certificate signatures) and decoded and swept; cases rejected with zero signatures are not signed; non-trivial = deviations that still decode. Operator menu: {menu}"),
         true, "deviation bound 1 on 9 to-be-signed parts", None);
+    {
+        let seg_nt: u64 = env.seeds.iter().enumerate().map(|(i, s)| if seg_seed(s, thorough) { seg_distinct[i] * seg_eps(s.kind, thorough).len() as u64 } else { 0 }).sum();
+        let sp = finish_space(SpaceId::Seg, "bound1.segmented_strings",
+            &format!("the segmentation dimension: a string value that arrives in pieces (BER constructed spelling). Every seed of a type with a relaxed entry point (quick: seeds up to 16 KiB into the relaxed decoder of the type; thorough: every seed into every entry point of its type, where strict and DER decoding must refuse) x every primitive string-typed TLV node (OCTET / BIT STRING, character strings, times, primitive context tags such as the [0] signer identifier; value length L, a BIT STRING without its unused-bits octet) x the total the pieces add up to: L-1, L, L+1, L+L/2, 2L (the value's own octets cut or repeated; L > 2048: the first three) x the lay-out: ALL two-piece splits (cut at every position 0..=total for totals up to 80 octets; beyond that the 17 positions at either end, +-1 around L, the middle, 127/128, 255/256, 1000, 65535/65536), a menu of up to 14 three-piece splits (empty pieces in front / in the middle / at the end, one-octet pieces, thirds, the second cut one before / at / one behind L with the first cut in the middle, one before L or at L), and at the cuts {{1, L/2, L-1, L, L+1, total-1}} the two-piece split with the first / the second piece itself constructed of two halves (one level of nesting) and the two-piece split under an indefinite outer length; all ancestors' lengths follow. So every relation between a piece boundary and the expected length occurs: every piece shorter than L while the total is larger, a piece that starts before octet L and ends behind it, a piece that ends exactly at L followed by more, empty pieces anywhere. Each case is decoded and, if it decodes, gets the full accessor sweep; non-trivial = inputs distinct by content per seed (measured by hashing), times entry points"),
+            true, "every string-typed node of every such seed x 5 totals x all two-piece splits + three-piece, nested and indefinite menus", Some(seg_nt));
+        sp.set("seeds", json!(env.seeds.iter().enumerate().filter(|(_, s)| seg_seed(s, thorough)).map(|(i, s)| json!({"name": s.name, "cases": seg_lists[i].len(), "entry_points": seg_eps(s.kind, thorough).iter().map(|e| format!("{}/{}", e.name(), e.mode())).collect::<Vec<_>>()})).collect::<Vec<_>>()));
+        let log_nt: u64 = env.seeds.iter().enumerate().map(|(i, s)| log_distinct[i] * eps_for(s.kind).len() as u64).sum();
+        let sp = finish_space(SpaceId::Log, "environment.logging",
+            &format!("the environment an EARLIER call may have left behind: the process-global maximum level of the `log` crate. All other spaces run at level Off (a process that never touched logging: no argument of a log statement is evaluated); here the worker has raised the level to Trace and installed a logger that is enabled for everything and formats every record into a sink, so every argument of every `error!` .. `trace!` statement on the path is evaluated and formatted inside the case's panic guard. Run that way: EVERY seed as it is (including the count / scale objects: CRLs, manifests, ROAs with 0..=40 and 255..=257 entries, TALs with 0..=3, 40 and 257 URIs, certificates with 17/33/65 blocks) through every entry point of its type with the full accessor sweep; the COMPLETE bound-1 list (quick-tier menu) of every text-format seed (TALs, AS and IP block lists) and of one seed per type (the freshly built one with the fewest TLV nodes){}; for all other seeds the reduced list: at every TLV node one representative per operator class (tag := {{02,04,30,05}}; length -1, +1, 0, indefinite, non-minimal; content one short, empty, all FF, first+1, last-1, one zero octet; constructed-string split-mid and last-part-twice; reverse the elements; delete; duplicate; swap) and the truncation in front of the node. Oracles and witnesses as in bound 1 (sp=log). Non-trivial = inputs distinct by content per seed (measured by hashing), times entry points",
+                if thorough { " - thorough: of every seed" } else { "" }),
+            true, "all seeds as they are; full bound-1 list of the representative seeds, reduced list of the others; at log level Trace", Some(log_nt));
+        let recs = per.get(&SpaceId::Log).and_then(|r| r.notes.get("log records formatted").copied()).unwrap_or(0);
+        sp.set("log_records_formatted", json!(recs));
+        sp.set("seeds_with_complete_bound1_list", json!(env.seeds.iter().enumerate().filter(|(i, s)| log_full[*i] && !s.no_mutate && !s.own_space).map(|(_, s)| s.name.clone()).collect::<Vec<_>>()));
+        if recs == 0 { ctx.machinery_error("environment.logging: the library's log statements produced no record at level Trace; the level did not take effect") }
+        let sp = finish_space(SpaceId::LogRs, "environment.logging.resigned",
+            &format!("log level Trace behind the signature checks: the to-be-signed parts of bound1.resigned x {} at every node, signed again with the pool keys, decoded and swept (validation, revocation lookup, resource verification run with every log argument evaluated); non-trivial = deviations that still decode",
+                if thorough { "the full operator menu" } else { "the reduced operator menu (one representative per operator class)" }),
+            true, "reduced (thorough: full) menu on the to-be-signed parts, at log level Trace", None);
+        sp.set("log_records_formatted", json!(per.get(&SpaceId::LogRs).and_then(|r| r.notes.get("log records formatted").copied()).unwrap_or(0)));
+    }
     finish_space(SpaceId::Scale, "scale.lists",
-        "the scale dimension, unmutated objects through every entry point of their type and the full sweep: (a) CA / EE certificates with 17, 33 and 65 disjoint blocks per family, and correctly signed ROAs and ASPAs under them (EE resources independent of the content) asking for a prefix / customer AS below the first block, at the first, a middle and the last block, in the gaps after the first and a middle block, above the last block; (b) CRLs, manifests and ROAs with 0..=40 and 255..=257 entries, ASPAs with 1..=40, 255..=257 and 16379..=16381 providers (thorough: also the neighbourhoods of 64, 128, 1024, 4096, and for providers 8192 and 16384); every decoded block list of every space is in addition probed at and around its first, middle and last block (C04.ip.probes, C04.as.probes), every CRL at its first, middle and last entry; non-trivial = (object, entry point) pairs that decode",
+        "the scale dimension, unmutated objects through every entry point of their type and the full sweep: (a) CA / EE certificates with 17, 33 and 65 disjoint blocks per family, and correctly signed ROAs and ASPAs under them (EE resources independent of the content) asking for a prefix / customer AS below the first block, at the first, a middle and the last block, in the gaps after the first and a middle block, above the last block; (b) CRLs, manifests and ROAs with 0..=40 and 255..=257 entries, ASPAs with 1..=40, 255..=257 and 16379..=16381 providers, TALs with 0..=3, 40 and 257 URIs (thorough: also the neighbourhoods of 64, 128, 1024, 4096, and for providers 8192 and 16384); every decoded block list of every space is in addition probed at and around its first, middle and last block (C04.ip.probes, C04.as.probes), every CRL at its first, middle and last entry; non-trivial = (object, entry point) pairs that decode",
         true, "3 block counts x 7 placements x {ROA, ASPA}; list counts as stated", None);
     {
         let hung = deaths.iter().filter(|d| d.task.sp == SpaceId::Own).count() as u64;
@@ -4339,7 +4695,7 @@ fn main() {
     for d in &deaths { report_death(&ctx, &env, thorough, d) }
     for d in &coarse {
         let (oracle, cause) = if d.hung { ("C04.worker.hang", "hang") } else { ("C04.worker.abort", "abort") };
-        let name = if d.task.sp == SpaceId::Rs { env.rs[d.task.seed].name.clone() } else if d.task.sp == SpaceId::Str { "-".into() } else { env.seeds[d.task.seed].name.clone() };
+        let name = if matches!(d.task.sp, SpaceId::Rs | SpaceId::LogRs) { env.rs[d.task.seed].name.clone() } else if d.task.sp == SpaceId::Str { "-".into() } else { env.seeds[d.task.seed].name.clone() };
         ctx.fail(oracle, format!("mode={};cause={} ep={} seed={} sp={} i={}..{} case=batch-not-bisected acc=decode+sweep", d.task.ep.mode(), cause, d.task.ep.name(), name, d.task.sp.code(), d.task.lo, d.task.hi),
             format!("{} (more than {DEATH_CAP} inputs of this seed and entry point end a worker; this batch was not bisected)", d.how));
     }
